@@ -3,7 +3,8 @@
    functions (three sentinel sets, parametricity checked by the translator); messages / procedures
    (Spec/TS38413.v) are the hand-written transcription of TS 38.413; inst fills a template with arguments. *)
 From Coq Require Import ZArith NArith List String Bool.
-Require Import GoSlice AperCommon AperEnc AperDec NgapSchema AperCheck BuildersT TS38413 Builders Builders13 Builders13Proofs.
+Require Import GoSlice AperCommon AperEnc AperDec NgapSchema AperCheck BuildersT TS38413 Builders Builders13 Builders13Proofs
+        Builders13Range Builders13RangeAll.
 Import ListNotations.
 Open Scope string_scope.
 
@@ -77,18 +78,48 @@ Theorem c13_integer_above_bound_refused :
   forall st z ub, (ub < z)%Z -> (0 <= z)%Z -> appendInteger st z false (Some 0%Z) (Some ub) = Err E_INT_LARGE.
 Proof. exact integer_above_bound_refused. Qed.
 Print Assumptions c13_integer_above_bound_refused.
-(* ... the identifiers of the emulator's messages carry exactly the constraints (0..2^40-1), (0..2^32-1) in the
-   regenerated schema, and each whole message (template instantiated, encoded by the APER model) is Ok at the
-   bounds 0 / 2^40-1 / 2^32-1 / 255 and an error just outside (-1, bound+1, 2*bound+2; session id lists [256],
-   [3;-1]).
-   TODO-PARTIAL (full statement): forall b in emulator wrappers, forall s, in_range s -> exists bs, encode_call b s
-   = Ok bs, and ~ in_range s -> exists e, encode_call b s = Err e.  Missing in the APER development: a
-   compositional lemma for makeField over SEQUENCE / CHOICE / open type ("the result is the Err of the first
-   failing component, Ok when every component is Ok"); Proofs/AperEncProofs.v has the primitives only. *)
-Theorem c13_whole_message_bounds_partial :
+(* ... and whole messages, for ALL argument values (the full statement of the range clause): for each of the nine
+   wrappers the emulator calls, every argument assignment s that is well-formed apart from the identifiers
+   ([env_wf b s], Model/Builders13Range.v: every parameter bound to a value of its kind, octets are octets, PLMN 3
+   octets, IPv4 4 octets, RAN node name 1..150 octets, NAS-PDU below 15000 octets, a session id list of at most 300
+   elements, gNB id octets = those of a bit string of the given bit length < 16384, a variant is selected):
+     all identifiers in range  => the template instantiated with s and encoded by the APER model gives bytes,
+     some identifier out of range (negative or above its bound) => it gives an error
+   where "identifiers in range" ([ids_ok b s]) = AMF-UE-NGAP-ID in 0..2^40-1, RAN-UE-NGAP-ID in 0..2^32-1, PDU session
+   id in 0..255, a non-nil session id list of 1..256 elements each in 0..255, gNB id bit length in 22..32.
+   Proof: Proofs/Builders13Range*.v - the hypotheses of the structural C03 theorems (c03_aper_encode_is_x691 /
+   c03_aper_encode_refuses: abs, supr, the X.691 specification function being XOk / XViolation) are established for
+   the instantiated template with the identifiers as variables; the status of the X.691 function is decided without
+   bits, independently of the bit position ([xst], Builders13RangeX.v).
+   The bounds 15000 / 300 / 16384 keep the message below the 16384 octets after which X.691 fragments the length of
+   the open type that wraps it (there the structural C03 theorems stop; the Go encoder goes on). *)
+Theorem c13_identifiers_in_range_encode :
+  forall b s, In b emulator_wrapper_templates -> env_wf b s = true -> ids_ok b s = true ->
+    exists bs, encode_call b s = Ok bs.
+Proof. exact ranges_in_range_encode. Qed.
+Print Assumptions c13_identifiers_in_range_encode.
+
+Theorem c13_identifiers_out_of_range_refused :
+  forall b s, In b emulator_wrapper_templates -> env_wf b s = true -> ids_ok b s = false ->
+    exists e, encode_call b s = Err e.
+Proof. exact ranges_out_of_range_refused. Qed.
+Print Assumptions c13_identifiers_out_of_range_refused.
+
+(* the identifiers of the emulator's messages carry exactly the constraints (0..2^40-1), (0..2^32-1) in the
+   regenerated schema; and, as computed samples of the two theorems above (kept: they run the encoder model itself),
+   each whole message is Ok at the bounds 0 / 2^40-1 / 2^32-1 / 255 and an error just outside (-1, bound+1,
+   2*bound+2; session id lists [256], [3;-1]).
+   TODO-PARTIAL (what the two theorems above leave open): (1) argument assignments outside env_wf - a NAS-PDU of 15000
+   octets or more, a session id list of more than 300 elements, a gNB id bit length >= 16384 (fragmented lengths,
+   outside the structural C03 theorems); a PLMN / IPv4 / RAN node name of another size, gNB id octets that do not
+   match the bit length (refused or not: not stated here); a 5G-S-TMSI other than the two probed forms (no template);
+   an unbound / ill-kinded argument (the model answers Panic, Go does not type-check such a call), octets >= 256
+   (not a Go byte); (2) the five wrappers the emulator does not call (path switch, handover ...) and the Build*
+   functions called directly. *)
+Theorem c13_identifier_constraints_and_boundary_samples :
   forallb (fun b => boundary_ok b && id_constraints_ok b) emulator_wrapper_templates = true.
 Proof. exact emulator_boundaries. Qed.
-Print Assumptions c13_whole_message_bounds_partial.
+Print Assumptions c13_identifier_constraints_and_boundary_samples.
 
 (* outside the criticality clause (not sent by the emulator), kept visible: the functions whose output departs
    from the transcribed tables *)
@@ -124,3 +155,19 @@ Example c13_example_release_complete :
   (exists t, select s2 (b_variants B_GetUEContextReleaseComplete) = Some t /\
      find_ie (inst s2 None t) 60 = Some (VStruct [VList [VStruct [VStruct [VInt 5]; VNil]; VStruct [VStruct [VInt 9]; VNil]]])).
 Proof. split; eexists; vm_compute; split; reflexivity. Qed.
+
+(* the range theorems apply: a well-formed assignment with all identifiers in range, and the same with the
+   AMF-UE-NGAP-ID one above its bound / a session id list holding 256 *)
+Example c13_example_ranges :
+  In B_GetUplinkNASTransport emulator_wrapper_templates /\
+  env_wf B_GetUplinkNASTransport ex_env = true /\ ids_ok B_GetUplinkNASTransport ex_env = true /\
+  env_wf B_GetUplinkNASTransport (override ex_env "amfUeNgapID" (AInt 1099511627776)) = true /\
+  ids_ok B_GetUplinkNASTransport (override ex_env "amfUeNgapID" (AInt 1099511627776)) = false /\
+  (let s := mkenv [("amfUeNgapID", AInt 1); ("ranUeNgapID", AInt 2); ("pduSessionIDList", AInts (Some [5; 256]%Z))] [2; 248; 57]%N in
+   In B_GetUEContextReleaseRequest emulator_wrapper_templates /\ env_wf B_GetUEContextReleaseRequest s = true /\
+   ids_ok B_GetUEContextReleaseRequest s = false /\ encode_call B_GetUEContextReleaseRequest s = Err E_INT_LARGE) /\
+  (let s := mkenv [("gnbId", ABytes [0; 1; 2]%N); ("mobilePLMN", ABytes [2; 248; 57]%N); ("bitlength", AInt 24); ("name", ABytes [103; 78; 66]%N)] [2; 248; 57]%N in
+   In B_GetNGSetupRequest emulator_wrapper_templates /\ env_wf B_GetNGSetupRequest s = true /\ ids_ok B_GetNGSetupRequest s = true /\
+   ids_ok B_GetNGSetupRequest (override (override s "bitlength" (AInt 40)) "gnbId" (ABytes [0; 1; 2; 3; 4]%N)) = false /\
+   env_wf B_GetNGSetupRequest (override (override s "bitlength" (AInt 40)) "gnbId" (ABytes [0; 1; 2; 3; 4]%N)) = true).
+Proof. vm_compute. repeat split; tauto. Qed.
